@@ -71,10 +71,15 @@ def count (db : Db) (d : Day) : Nat := (dayRows db d).length + (dayTombs db d).l
 def digest (db : Db) (d : Day) : Option Digest :=
   if count db d = 0 then none else some (dayRows db d, dayTombs db d)
 
-/-- `DailyLogsUpdate::compute`: every flagged entry is recomputed from the content of its day -/
+/-- `DailyLogsUpdate::compute`: every flagged entry is recomputed from the content of its day; a flagged entry
+    whose day holds nothing any more is removed (`DELETE FROM _daily_log …`, since the fix
+    `findings/C09-3-emptied-day-dropped.patch`) -/
 def recomputeLog (db : Db) : List LogEntry :=
-  db.log.map fun e =>
-    if e.dirty then { day := e.day, count := count db e.day, hash := digest db e.day, dirty := false } else e
+  db.log.filterMap fun e =>
+    if e.dirty then
+      (if count db e.day = 0 then none
+       else some { day := e.day, count := count db e.day, hash := digest db e.day, dirty := false })
+    else some e
 
 /-- one upsert of `DailyMutations::write` -/
 def markDay (log : List LogEntry) (d : Day) : List LogEntry :=
